@@ -230,16 +230,20 @@ impl Memo {
             LogicalOperator::Project(proj) => {
                 proj.expressions.len().hash(hasher);
                 proj.output_schema.num_columns().hash(hasher);
+                format!("{:?}", proj.expressions).hash(hasher);
             }
             LogicalOperator::Join(join) => {
                 std::mem::discriminant(&join.join_type).hash(hasher);
+                format!("{:?}", join.condition).hash(hasher);
             }
             LogicalOperator::Aggregate(agg) => {
                 agg.group_by.len().hash(hasher);
                 agg.aggregates.len().hash(hasher);
+                format!("{:?}{:?}", agg.group_by, agg.aggregates).hash(hasher);
             }
             LogicalOperator::Sort(sort) => {
                 sort.order_by.len().hash(hasher);
+                format!("{:?}", sort.order_by).hash(hasher);
             }
             LogicalOperator::Limit(limit) => {
                 limit.limit.hash(hasher);
@@ -262,9 +266,12 @@ impl Memo {
                     first.len().hash(hasher);
                 }
             }
+            LogicalOperator::Filter(filter) => {
+                // two different predicates over the same input are different expressions
+                format!("{:?}", filter.predicate).hash(hasher);
+            }
             LogicalOperator::Empty(_)
             | LogicalOperator::Distinct(_)
-            | LogicalOperator::Filter(_)
             | LogicalOperator::Materialize(_) => {
                 // These are determined by their children
             }
